@@ -52,15 +52,81 @@ type gen struct {
 	// governance route: parameter updates to submit as one proposal right after the bootstrap block
 	pending []sdk.Msg
 	Kinds map[string]int  // message kinds generated (stats)
+	// profile of this chain (a function of the script's seed): "mixed", or a churn profile in which the
+	// time-out parameters of one module are changed by governance again and again while its flows are left
+	// unanswered (lazy signers / reporters), so that queues of pending work are processed under parameter
+	// values other than the ones they were created under
+	profile string
 }
 
 func newGen(e *Env, rng *rand.Rand) *gen {
-	return &gen{e: e, rng: rng, Kinds: map[string]int{}}
+	g := &gen{e: e, rng: rng, Kinds: map[string]int{}, profile: "mixed"}
+	switch x := rng.Intn(10); {
+	case x < 2:
+		g.profile = "tssChurn"
+	case x < 4:
+		g.profile = "oracleChurn"
+	}
+	return g
+}
+
+// churn: the extra actions of a churn profile (see gen.profile)
+func (g *gen) churn(ctx sdk.Context) (acts []action) {
+	app := g.e.W.App
+	au := govAuthority()
+	voting := false
+	if g.govID != 0 {
+		if p, err := app.GovKeeper.Proposals.Get(ctx, g.govID); err == nil && p.Status == govv1.StatusVotingPeriod {
+			voting = true
+		}
+	}
+	free := !voting && !(len(g.pending) > 0 && g.step < 12)
+	switch g.profile {
+	case "tssChurn":
+		for i := g.pick(3); i > 0; i-- {
+			a := g.acct()
+			m, err := bandtsstypes.NewMsgRequestSignature(tsstypes.NewTextSignatureOrder([]byte(fmt.Sprintf("churn-%d-%d", g.step, i))), uband(400), a.Addr.String())
+			if err == nil {
+				acts = append(acts, action{kind: "requestSig", signer: a, msgs: []sdk.Msg{m}, fee: uband(500)})
+			}
+		}
+		if free && g.chance(0.5) {
+			p := app.TSSKeeper.GetParams(ctx)
+			p.SigningPeriod = uint64(1 + g.pick(6))
+			p.MaxSigningAttempt = uint64(g.pick(5))
+			if g.chance(0.3) {
+				p.MaxDESize = uint64(1 + g.pick(8))
+			}
+			acts = append(acts, g.proposalBy(ctx, g.acct(), true, tsstypes.NewMsgUpdateParams(au, p))...)
+		}
+	case "oracleChurn":
+		for i := g.pick(3); i > 0; i-- {
+			a := g.acct()
+			ask := 1 + g.pick(len(g.e.W.Vals))
+			acts = append(acts, action{kind: "request", signer: a, fee: uband(500), msgs: []sdk.Msg{oracletypes.NewMsgRequestData(
+				oracletypes.OracleScriptID([]int{world.ScriptOK3, world.ScriptOK1, world.ScriptW4}[g.pick(3)]), []byte("calldata"), uint64(ask), uint64(1+g.pick(ask)),
+				fmt.Sprintf("churn%d", g.step), uband(1000), 40000, 300000, a.Addr, oracletypes.Encoder(g.pick(3)))}})
+		}
+		if free && g.chance(0.5) {
+			p := app.OracleKeeper.GetParams(ctx)
+			p.ExpirationBlockCount = uint64(1 + g.pick(8))
+			acts = append(acts, g.proposalBy(ctx, g.acct(), true, oracletypes.NewMsgUpdateParams(au, p))...)
+		}
+	}
+	return acts
 }
 
 func (g *gen) pick(n int) int { return g.rng.Intn(n) }
 func (g *gen) chance(p float64) bool {
 	return g.rng.Float64() < p
+}
+
+// answer: how eagerly the housekeeping answers open work; lazy in the module's churn profile
+func (g *gen) answer(p float64, lazyIn string) float64 {
+	if g.profile == lazyIn {
+		return 0.12
+	}
+	return p
 }
 func (g *gen) acct() world.Account { return g.e.W.Accts[g.pick(len(g.e.W.Accts))] }
 func (g *gen) val() world.Account  { return g.e.W.Vals[g.pick(len(g.e.W.Vals))] }
@@ -80,7 +146,9 @@ func (g *gen) nextBlock(mutate bool) (dt int64, acts []action) {
 	g.used = map[string]bool{}
 	dts := []int64{1, 1, 1, 2, 2, 3, 5, 7}
 	dt = dts[g.pick(len(dts))]
-	if g.chance(0.04) {
+	if g.profile != "mixed" {
+		dt = 1 // many blocks per voting period: pending work meets several parameter values
+	} else if g.chance(0.04) {
 		dt = []int64{60, 700, 4000, 90_000}[g.pick(4)]
 	}
 	newTime := g.e.C.Time.Add(time.Duration(dt) * time.Second)
@@ -100,6 +168,9 @@ func (g *gen) nextBlock(mutate bool) (dt int64, acts []action) {
 	safely(func() { add(g.prices(ctx, newTime)...) })
 	safely(func() { add(g.govVotes(ctx)...) })
 	safely(func() { add(g.memberCare(ctx)...) })
+	if g.profile != "mixed" {
+		safely(func() { add(g.churn(ctx)...) })
+	}
 	n := 2 + g.pick(5)
 	for i := 0; i < n; i++ {
 		safely(func() { add(g.randomAction(ctx, newTime)...) })
@@ -208,7 +279,7 @@ func (g *gen) reports(ctx sdk.Context) (acts []action) {
 		}
 		for _, vs := range req.RequestedValidators {
 			va, err := sdk.ValAddressFromBech32(vs)
-			if err != nil || k.HasReport(ctx, oracletypes.RequestID(id), va) || !g.chance(0.6) {
+			if err != nil || k.HasReport(ctx, oracletypes.RequestID(id), va) || !g.chance(g.answer(0.6, "oracleChurn")) {
 				continue
 			}
 			var signer *world.Account
@@ -253,7 +324,7 @@ func (g *gen) signatures(ctx sdk.Context) (acts []action) {
 			continue
 		}
 		for _, am := range sa.AssignedMembers {
-			if k.HasPartialSignature(ctx, sg.ID, sg.CurrentAttempt, am.MemberID) || !g.chance(0.7) {
+			if k.HasPartialSignature(ctx, sg.ID, sg.CurrentAttempt, am.MemberID) || !g.chance(g.answer(0.7, "tssChurn")) {
 				continue
 			}
 			m, ok := grp.ByAddr(am.Address)
